@@ -16,7 +16,7 @@ except Exception:  # pragma: no cover
 
 META = {
     "technique": "Lean 4 algebra (all mixing rules share the fixed points of the SCF map; DIIS affine combination; SP2 = aufbau; UHF singlet Fock = RHF Fock; one shared stopping rule) + solver-pair search on the real code",
-    "level_text": "Theorems: alpha*P + (1-alpha)*g(P) = P iff g(P) = P for alpha != 1; the adaptive extrapolation is the identity at a fixed point; a DIIS combination with unit coefficient sum of equal Fock matrices is that matrix; SP2's limit is the aufbau projector; with P_alpha = P_beta = P/2 the unrestricted Fock operators equal the restricted one; every solver applies the same get_error, so any two converged results are eps-approximate fixed points of the same map. Uniqueness of the fixed point / monotone tightening is a property of the molecule and is validated, not proved (partial). Tied to the code by the C03 recorded-trace correspondence and by comparing pairs of solver configurations (fixed/adaptive/Pulay, SP2, UHF singlet, restarts from previous/perturbed densities, threshold ladders) on closed-shell molecules with gap > 2 eV.",
+    "level_text": "Theorems: alpha*P + (1-alpha)*g(P) = P iff g(P) = P for alpha != 1; the adaptive extrapolation is the identity at a fixed point; a DIIS combination with unit coefficient sum of equal Fock matrices is that matrix; SP2's limit is the aufbau projector; with P_alpha = P_beta = P/2 the unrestricted Fock operators equal the restricted one; every solver applies the same get_error, so any two converged results are eps-approximate fixed points of the same map. Uniqueness of the fixed point / monotone tightening is a property of the molecule and is validated, not proved (partial). Tied to the code by the C03 recorded-trace correspondence and by comparing pairs of solver configurations (fixed/adaptive/Pulay, SP2, UHF singlet, restarts from previous/perturbed densities, threshold ladders) on closed-shell molecules with gap > 2 eV. Round 4 (C04b): for an SCF map that is a contraction with constant q < 1 on a complete normed space, constant mixing with 0 <= alpha < 1 is a contraction with constant alpha + (1-alpha) q and has the same unique fixed point; ANY density with residual |g(P) - P| <= r lies within r/(1-q) of it (solver independence with an explicit constant); a mixing run stopped when the density changed by <= eps is within eps/((1-alpha)(1-q)) - the factor K = 1/(1-alpha) the probes multiply the threshold with; two stopped runs agree within the sum of their bounds; the bound is monotone in the threshold.",
     "level_note": "Trusted: Lean kernel; harness; tolerances K*eps with K stated in the probe. Partial: uniqueness and monotone tightening validated only.",
     "design_ref": "DESIGN.md section 5 C04",
 }
@@ -174,6 +174,9 @@ def _run_case(item):
 
 def run(ctx: Ctx):
     leanproj.check_theorems(ctx, MODULE, THEOREMS)
+    from .registry import THEOREMS_C04B
+    # the constant behind "a small multiple of the threshold": a-posteriori bounds for any stopped solver on a contracting SCF map
+    leanproj.check_theorems(ctx, "PyseqmVerif.Properties.C04b", THEOREMS_C04B)
     cases = gen_cases(ctx)
     results = mdh.pmap(_run_case, cases, timeout=1800)
     for (name, c), r in zip(cases, results):
